@@ -175,7 +175,11 @@ func (w *World) Resolve(p []byte) (targets []target, clamp string, escaping bool
 	raw := string(p)
 	clamp = path.Clean("/" + raw)
 	if strings.IndexByte(raw, 0) >= 0 {
-		return []target{{missing: true}}, clamp, false
+		if strings.IndexByte(clamp, 0) >= 0 {
+			return []target{{missing: true}}, clamp, false // the OS cannot name such a path
+		}
+		// the NUL sits in a component that ".." cancels lexically: the cleaned path or "no such path"
+		return []target{{os: filepath.Join(w.Root, clamp)}, {missing: true}}, clamp, true
 	}
 	depth := 0
 	for _, c := range strings.Split(raw, "/") {
